@@ -5,7 +5,7 @@
    names, types, scopes and keys are universally quantified with no bound.
    history_wf = the configured stale window (initially and after every reload) is not negative. *)
 From Coq Require Import List ZArith NArith Bool.
-From Dae Require Import C08_Spec C08_Model C08_Proofs C08_Ttl C08_Lru.
+From Dae Require Import C08_Spec C08_Model C08_Proofs C08_Ttl C08_Lru C08_LruStore C08_Keys.
 Import ListNotations.
 Open Scope Z_scope.
 
@@ -102,6 +102,72 @@ Theorem C08_lru :
     /\ (forall a b, (a < m)%nat -> (m <= b < length entries)%nat -> la h b <= la h a).
 Proof. exact select_oldest_proof. Qed.
 Print Assumptions C08_lru.
+
+(* LRU at store level, for EVERY iteration order of the map (the oracle is universally quantified: any list
+   without repetition that contains every key of the store, possibly among keys that are gone): with limit n
+   a store of at most n entries is left alone; otherwise exactly n entries survive, all of them entries of the
+   store, and no evicted entry was used more recently than a surviving one.  The order can only decide ties. *)
+Theorem C08_lru_store :
+  forall (st : store) (order : list bytes) (n : Z),
+    NoDup (keys_of st) -> NoDup order -> incl (keys_of st) order -> 0 < n ->
+    let st' := evict_lru n st order in
+    (Z.of_nat (length st) <= n -> st' = st)
+    /\ (n < Z.of_nat (length st) ->
+        Z.of_nat (length st') = n /\ (forall p, In p st' -> In p st)
+        /\ (forall ke e ks s, In (ke, e) st -> ~ In (ke, e) st' -> In (ks, s) st' -> e_last e <= e_last s)).
+Proof. exact evict_lru_store_proof. Qed.
+Print Assumptions C08_lru_store.
+
+(* every reachable cache holds one entry per key (the hypothesis of C08_lru_store) ... *)
+Theorem C08_store_keys_unique : forall c h, NoDup (keys_of (m_store (fst (m_run c h)))).
+Proof. exact keys_unique_proof. Qed.
+Print Assumptions C08_store_keys_unique.
+
+(* ... hence, for the janitor of every reachable cache, every instant and every iteration order taken before
+   the run: after the time-based pass (st1) the size limit keeps exactly max_cache_size entries of st1, none
+   less recently used than an evicted one. *)
+Theorem C08_janitor_lru :
+  forall c h now (order : list bytes),
+    let s := fst (m_run c h) in
+    NoDup order -> incl (keys_of (m_store s)) order -> 0 < c_max (m_cfg s) ->
+    let st1 := evict_expired (m_cfg s) (m_store s) now in
+    let st' := m_store (m_janitor s now order) in
+    (Z.of_nat (length st1) <= c_max (m_cfg s) -> st' = st1)
+    /\ (c_max (m_cfg s) < Z.of_nat (length st1) ->
+        Z.of_nat (length st') = c_max (m_cfg s) /\ (forall p, In p st' -> In p st1)
+        /\ (forall ke e ks s0, In (ke, e) st1 -> ~ In (ke, e) st' -> In (ks, s0) st' -> e_last e <= e_last s0)).
+Proof. exact janitor_lru_proof. Qed.
+Print Assumptions C08_janitor_lru.
+
+(* Key scoping.  Full statement: two questions get the same cache-key string iff their lower-cased fully
+   qualified names, types and scope texts are equal.  It is false over arbitrary byte strings: a name read
+   from the wire may contain '|' (miekg/dns does not escape it), and then an UNSCOPED key can equal a scoped one. *)
+Definition C08_key_injective_full : Prop :=
+  forall n1 q1 s1 n2 q2 s2, (q1 < 65536)%N -> (q2 < 65536)%N ->
+    key_of n1 q1 s1 = key_of n2 q2 s2 ->
+    lower (fqdn n1) = lower (fqdn n2) /\ q1 = q2 /\ scope_str s1 = scope_str s2.
+Theorem C08_key_injective_refuted : ~ C08_key_injective_full.
+Proof. exact key_injective_full_refuted_proof. Qed.
+(* witness: ("a.", 1, upstream text "u.5") and the unscoped ("a.1|upstream@u.", 5) both give "a.1|upstream@u.5" *)
+Print Assumptions C08_key_injective_refuted.
+(* Partial (i): names without '|' (any scopes). *)
+Theorem C08_key_injective_partial :
+  forall n1 q1 s1 n2 q2 s2,
+    ~ In bar n1 -> ~ In bar n2 -> (q1 < 65536)%N -> (q2 < 65536)%N ->
+    (key_of n1 q1 s1 = key_of n2 q2 s2
+     <-> lower (fqdn n1) = lower (fqdn n2) /\ q1 = q2 /\ scope_str s1 = scope_str s2).
+Proof. exact key_injective_names_proof. Qed.
+Print Assumptions C08_key_injective_partial.
+(* Partial (ii): ANY names (with '|' too), when both keys are scoped by a scope text without '|' - every key the
+   request path builds ("asis@addr:port", "reject", "upstream@scheme://host:port/path"). *)
+Theorem C08_key_injective_scoped :
+  forall n1 q1 s1 n2 q2 s2,
+    scope_str s1 <> [] -> scope_str s2 <> [] -> ~ In bar (scope_str s1) -> ~ In bar (scope_str s2) ->
+    (q1 < 65536)%N -> (q2 < 65536)%N ->
+    (key_of n1 q1 s1 = key_of n2 q2 s2
+     <-> lower (fqdn n1) = lower (fqdn n2) /\ q1 = q2 /\ scope_str s1 = scope_str s2).
+Proof. exact key_injective_scoped_proof. Qed.
+Print Assumptions C08_key_injective_scoped.
 
 (* Non-vacuity: a well-formed history with a replacement under a differently-cased name whose fixed TTL is
    configured in yet another case, a reload, a fresh hit of the latest answer, a stale hit asking for a
